@@ -40,6 +40,7 @@ type World struct {
 type Ty struct {
 	G    types.Type
 	Spec string
+	Elem *Ty // element type of a spec map (fmap[K,V]) whose values are Go-typed
 }
 
 func (t Ty) String() string {
@@ -335,7 +336,7 @@ func (w *World) resolveType(ctxPkg, text string, g *Gen) Ty {
 		if len(parts) == 2 {
 			k := w.resolveType(ctxPkg, parts[0], g)
 			v := w.resolveType(ctxPkg, parts[1], g)
-			return Ty{Spec: arraySort(g.tySort(k), g.tySort(v))}
+			return Ty{Spec: arraySort(g.tySort(k), g.tySort(v)), Elem: &v}
 		}
 	}
 	if strings.HasPrefix(text, "*") {
